@@ -22,3 +22,35 @@ Definition plan_case_ok (c : plan_case) : bool :=
 
 Definition plan_mismatches (cs : list plan_case) : list N :=
   map pc_id (filter (fun c => negb (plan_case_ok c)) cs).
+
+(* ---- C02: selector correspondence ------------------------------------- *)
+From Verif Require Import Base Grid Select Shard Exec.
+Open Scope Z_scope.
+
+Record sel_case := mkSelCase {
+  sc_id : N; sc_shards : nat; sc_window : window; sc_lb : Z; sc_off : Z; sc_pinned : bool;
+  sc_series : list (list sample);           (* the selected series, storage order *)
+  sc_expected : list (list (Z * Z)) }.      (* observed points per series *)
+
+Definition sel_model (c : sel_case) : list (list (Z * Z)) :=
+  let n := List.length (sc_series c) in
+  let run w := sharded_selector (sc_lb c) (sc_lb c) (sc_off c) (sc_shards c) (sc_series c)
+                                (selector_batches steps_batch w) in
+  if sc_pinned c then
+    matrix_of n (step_invariant_run steps_batch (sc_window c) (run (pinned_window (sc_window c))))
+  else matrix_of n (run (sc_window c)).
+
+Definition zz_eqb (a b : Z * Z) : bool := Z.eqb (fst a) (fst b) && Z.eqb (snd a) (snd b).
+
+Fixpoint list_eqb {A} (eqb : A -> A -> bool) (l1 l2 : list A) : bool :=
+  match l1, l2 with
+  | [], [] => true
+  | x :: r1, y :: r2 => eqb x y && list_eqb eqb r1 r2
+  | _, _ => false
+  end.
+
+Definition sel_case_ok (c : sel_case) : bool :=
+  list_eqb (list_eqb zz_eqb) (sel_model c) (sc_expected c).
+
+Definition sel_mismatches (cs : list sel_case) : list N :=
+  map sc_id (filter (fun c => negb (sel_case_ok c)) cs).
